@@ -99,6 +99,27 @@ theorem no_lock_held_while_blocking :
     ∀ en ∈ table, ∀ e ∈ en.events, (e.kind = Kind.join ∨ e.kind = Kind.wait) → effMay en e = [] :=
   (blockingOk_iff table).mp (by decide +kernel)
 
+/-- **Every path from a lock to a function exit releases the lock.**  Over the structured control flow
+    of the clang AST of all four files (early `return`s, `break` / `continue` / `goto` out of a locked
+    region, the end of the body; a callee that leaves a mutex held leaves it held in its caller):
+    the only exits reached with a mutex taken by the function (or a callee) possibly still held are
+    those of the *lock wrappers* — functions whose whole body is the one lock call
+    (`MHD_ip_count_lock`), confirmed as such by the table; their callers fall under the same rule.
+    Together with `no_lock_held_while_blocking` this discharges what `no_deadlock_by_lock_order` /
+    `some_blocked_thread_can_proceed` leave open: a thread that owns a mutex and is not itself waiting
+    for one reaches an unlock before it leaves the code that took the mutex, so no mutex stays owned
+    for ever (the next digest operation / `MHD_stop_daemon` would otherwise block on it). -/
+theorem locks_released_on_every_path :
+    (∀ x ∈ exitsHoldingLock, (x.1, x.2.1) ∈ lockWrappers) ∧ (∀ w ∈ lockWrappers, wrapperOk table w = true) :=
+  (exitsOk_iff table exitsHoldingLock lockWrappers).mp (by decide +kernel)
+
+-- non-vacuity: the wrapper is there (so the extraction does see exits with a lock held), and the nonce
+-- table functions take and release their mutex
+example : ("MHD_ip_count_lock", Lock.per_ip_connection_mutex) ∈ lockWrappers ∧ exitsHoldingLock ≠ [] := by decide +kernel
+example : ∃ en ∈ table, en.name = "check_nonce_nc" ∧
+    (∃ e ∈ en.events, e.kind = Kind.lock Lock.nnc_lock) ∧ (∃ e ∈ en.events, e.kind = Kind.unlock Lock.nnc_lock) := by
+  decide +kernel
+
 /-
   Full statement (does NOT hold on the unchanged tree, see `lockset_witness`):
     ∀ en ∈ table, ∀ e ∈ en.events, ∀ f w, e.kind = .acc f w → protectedAcc en e f = true
@@ -228,6 +249,9 @@ example : contextOk (table.map (fun en =>
 example : callbackOk (mutFn "MHD_connection_close_" (fun es => es.map (fun e => { e with may := [.cleanup_connection_mutex] })) table) = false := by
   decide +kernel
 
+-- check_nonce_nc gets an early return between the lock and the unlock of the nonce-table mutex
+example : exitsOk table (("check_nonce_nc", Lock.nnc_lock, 864, true) :: exitsHoldingLock) lockWrappers = false := by
+  decide +kernel
 -- the per-IP lookup is moved in front of MHD_ip_count_lock()
 example : strictOk (mutFn "MHD_ip_limit_del" (fun es => es.map (fun e => { e with must := [] })) table) = false := by
   decide +kernel
